@@ -129,6 +129,40 @@ def strip_markers(schema):
     return schema
 
 
+PRIMS_ = ("null", "boolean", "int", "long", "float", "double", "bytes", "string")
+
+
+def inline_named(schema, named, defined=None):
+    """the self-contained form of a schema whose named types were parsed separately: every by-name reference whose definition
+    does not occur earlier in the text is replaced by that definition (taken from the shared named_schemas table), at its
+    FIRST use -- what a header must carry for the file to be readable on its own (independent of fastavro's own inliner)"""
+    defined = set() if defined is None else defined
+    if isinstance(schema, list):
+        return [inline_named(b, named, defined) for b in schema]
+    if isinstance(schema, str):
+        if schema in PRIMS_ or schema in defined or schema not in named:
+            return schema
+        return inline_named(named[schema], named, defined)
+    if isinstance(schema, dict):
+        out = {}
+        t = schema.get("type")
+        if t in ("record", "error", "enum", "fixed"):
+            defined.add(schema["name"])
+        for k, v in schema.items():
+            if k in ("__fastavro_parsed", "__named_schemas"):
+                continue
+            if k == "fields" and t in ("record", "error"):
+                out[k] = [dict((fk, inline_named(fv, named, defined) if fk == "type" else fv) for fk, fv in f.items()) for f in v]
+            elif k in ("items", "values") or (k == "type" and not isinstance(v, str)):
+                out[k] = inline_named(v, named, defined)
+            elif k == "type" and isinstance(v, str) and v not in PRIMS_ and v not in ("record", "error", "enum", "fixed", "array", "map"):
+                out[k] = inline_named(v, named, defined)
+            else:
+                out[k] = v
+        return out
+    return schema
+
+
 def expected_meta(schema_arg, codec, user_meta):
     """the metadata map the specification prescribes for the header, in the writer's insertion order
     (built with a plain dict: user entries, avro.schema = JSON text of the schema, avro.codec)"""
